@@ -218,7 +218,7 @@ def run(cx):
         "collisions_exact_* are stated for every array set accepted by wf_check; radix_tree_wf_all proves that the ported CreateRadixTree produces such a tree for every sorted code list with 2 <= n < 2^30 (unbounded Z arithmetic: the C++ int overflow of max_length for n > 2^29 is outside the model); wf_check is additionally evaluated (extracted) on every tree the implementation builds in this run",
         "leaf boxes and queries are integer valued in the correspondence (finite doubles embed order-isomorphically; min/max/<= are exact)",
         "query_stack_never_overflows: QueryTwoDTree's loop with its explicit stack is modelled literally (query_stk); the stack size and leaf size of the model are compared with tree2d.h on every run; the driver runs the explicit-stack form",
-        "sweep_pairs_exact covers membership, not multiplicity (the oracle compares the exact list)",
+        "sweep_pairs_exact (membership) + sweep_pairs_once (NoDup) give the exact list of the sweep up to order; the oracle compares the exact list",
     ]
     cx.prove()
     consts = consts_from_source()
